@@ -264,9 +264,15 @@ class FakeT:
         self.closing = False
         self.answer = answer
         self.lost_called = False
+        self.wedged = False       # the device has stopped reading: what is written stays in the transport's buffer
+        self.unsent = 0
 
     def write(self, d):
         if self.closing:
+            return
+        if self.wedged:
+            self.unsent += len(d)
+            self.log.add("WRITE-BUFFERED", self.cid, d)
             return
         self.log.add("WRITE", self.cid, d)
         if self.answer is not None and b";255;3;0;2;" in d:
@@ -287,11 +293,21 @@ class FakeT:
         if self.closing:
             return
         self.closing = True
+        if self.unsent:
+            # asyncio's close() is graceful: with bytes still in the write buffer the transport keeps the socket and calls
+            # connection_lost only once the buffer is flushed or a write fails - for a device that has stopped reading: never
+            self.log.add("DEV-CLOSE-PENDING", self.cid)
+            return
         self.log.add("DEV-CLOSE", self.cid)
         self.loop.call_soon(self._lost, None)
 
     def abort(self):
-        self.close()
+        if self.lost_called:
+            return
+        self.closing = True
+        self.unsent = 0
+        self.log.add("DEV-CLOSE", self.cid)
+        self.loop.call_soon(self._lost, None)
 
     def is_closing(self):
         return self.closing
@@ -473,8 +489,14 @@ def run_async(kind, seed, script, rt=3.0, answer=0.1, hold=0.0, stop_on_loss=Fal
                         d.peer_eof()
                 elif tok == "silence":
                     d.answer = None
+                elif tok == "wedge":
+                    # the device stops reading AND answering (wedged firmware, closed TCP window): the probes and replies the
+                    # gateway writes from now on stay in the transport's write buffer
+                    d.answer = None
+                    d.wedged = True
+                    d.feed(REQ)
                 await asyncio.sleep(0.5)
-                if tok == "silence" and kind == "tcp":
+                if tok in ("silence", "wedge") and kind == "tcp":
                     t_end = loop.time() + 3 * rt + 2
                     while loop.time() < t_end and not d.closing:
                         await asyncio.sleep(0.25)
@@ -564,7 +586,7 @@ def check(events, meta):
         if e[1] != "ACTION" or e[3] is None:
             continue
         tok, t0 = e[2], e[0]
-        if tok in ("read-error", "peer-reset", "write-error") or (tok == "peer-eof" and kind == "tcp") or (tok == "silence" and kind == "tcp"):
+        if tok in ("read-error", "peer-reset", "write-error") or (tok == "peer-eof" and kind == "tcp") or (tok in ("silence", "wedge") and kind == "tcp"):
             if tok in ("read-error", "peer-reset", "write-error"):
                 limit = 1.0 + eps
             elif tok == "peer-eof":
@@ -602,7 +624,7 @@ def check(events, meta):
     else:
         V.append(("stop-did-not-return", "stop() never returned"))
     # (4b) a healthy link is never dropped: every close before stop / user disconnect is explained by a scripted fault
-    FAULTS = ("read-error", "write-error", "peer-eof", "peer-reset", "silence", "race-read-error", "race-disconnect")
+    FAULTS = ("read-error", "write-error", "peer-eof", "peer-reset", "silence", "wedge", "race-read-error", "race-disconnect")
     for i, e in enumerate(events[:horizon] if meta.get("answer") is not None else []):
         if e[1] == "DEV-CLOSE":
             cid = e[2]
